@@ -257,17 +257,22 @@ func (a *List) DelItem(i int) {
 // Removes items from a list
 func (a *List) M__delitem__(key Object) (Object, error) {
 	if slice, ok := key.(*Slice); ok {
-		start, stop, step, _, err := slice.GetIndices(len(a.Items))
+		start, stop, step, slicelength, err := slice.GetIndices(len(a.Items))
 		if err != nil {
 			return nil, err
 		}
 		if step == 1 {
+			if stop < start {
+				stop = start
+			}
 			a.Items = append(a.Items[:start], a.Items[stop:]...)
-		} else {
-			j := 0
-			for i := start; i < stop; i += step {
-				a.DelItem(i - j)
-				j++
+		} else if slicelength > 0 {
+			// Delete in increasing index order whatever the sign of step
+			if step < 0 {
+				start, step = start+(slicelength-1)*step, -step
+			}
+			for j := 0; j < slicelength; j++ {
+				a.DelItem(start + j*step - j)
 			}
 		}
 	} else {
